@@ -147,7 +147,7 @@ def factorial_spec(levels, reps, seed=0, catkinds=None, numerics=("x", "z", "w")
 # ---- random (non-factorial) frames -------------------------------------------------------------
 @st.composite
 def random_frame(draw, cat_vars=("f", "g", "h"), num_vars=("x", "z"), int_vars=("k",), min_rows=4, max_rows=40,
-                 max_levels=4, with_index=True, extra_unused=True, pos_vars=(), num_styles=("general", "general", "ties", "offset", "smallint"),
+                 max_levels=4, with_index=True, extra_unused=True, pos_vars=(), num_styles=("general", "general", "ties", "offset", "smallint", "intdtype", "symmetric"),
                  min_levels=2, intcat_vars=()):
     """Arbitrary frame: unequal level counts, every declared level of a variable occurs at least once,
     str / Categorical / ordered Categorical columns, optional exotic index, optional unused columns."""
